@@ -200,14 +200,23 @@ class Facts(object):
         out.sort(key=lambda b: b.key)
         return out
 
+    def _free_fn_elsewhere(self, qname, kw):
+        """A free function named by path that lives in another module now (and nowhere else)."""
+        if not qname or kw or "<" in qname or qname.count("::") < 2:
+            return []
+        tail = qname.rsplit("::", 1)[1]
+        crate = qname.split("::", 1)[0]
+        c = [b for b in self.bodies.values() if not b.is_closure and b.container in (None, "none") and b.name == tail and b.qname.startswith(crate + "::")]
+        return c if len(c) == 1 else []
+
     def one(self, qname=None, **kw):
-        r = self.find(qname=qname, **kw)
+        r = self.find(qname=qname, **kw) or self._free_fn_elsewhere(qname, kw)
         if len(r) != 1:
             raise AnchorError("anchor %s %s: expected exactly one body, found %d" % (qname or "", kw or "", len(r)))
         return r[0]
 
     def maybe(self, qname=None, **kw):
-        r = self.find(qname=qname, **kw)
+        r = self.find(qname=qname, **kw) or self._free_fn_elsewhere(qname, kw)
         return r[0] if len(r) == 1 else None
 
     def closures_of(self, body, recursive=True):
@@ -328,6 +337,43 @@ def fn_refs(body):
     return [x for x in out if x]
 
 
+def _moved(data):
+    """Types, traits and free functions the rules name by path (anchors.py) that are not where that path says, but exist exactly
+    once elsewhere in the crate under the same name: {path found: path expected}.  Moving an item to another module changes
+    nothing but its path."""
+    from . import anchors as A
+    if data.get("crate") != A.C:
+        return {}
+    want = sorted(set(v for k, v in vars(A).items() if k.isupper() and isinstance(v, str) and v.startswith(A.C + "::")))
+    have = {}
+    for a in data.get("adts", []):
+        have.setdefault(a["path"].rsplit("::", 1)[-1], set()).add(a["path"])
+    for t in data.get("traits", []):
+        pth = t.get("path") if isinstance(t, dict) else None
+        if pth:
+            have.setdefault(pth.rsplit("::", 1)[-1], set()).add(pth)
+    for b in data.get("bodies", []):
+        if b.get("container") in (None, "none") and b.get("kind") != "closure" and b.get("path", "").startswith(A.C + "::") and "{" not in b.get("path", ""):
+            have.setdefault(b["path"].rsplit("::", 1)[-1], set()).add(b["path"])
+    present = set(p for ps in have.values() for p in ps)
+    out = {}
+    for w in want:
+        if w in present:
+            continue
+        c = have.get(w.rsplit("::", 1)[-1], set())
+        if len(c) == 1:
+            out[list(c)[0]] = w
+    return out
+
+
 def load(path, label=""):
     with open(path) as f:
-        return Facts(json.load(f), label=label)
+        text = f.read()
+    data = json.loads(text)
+    ren = _moved(data)
+    if ren:
+        import re
+        for found, expected in sorted(ren.items(), key=lambda kv: -len(kv[0])):
+            text = re.sub(re.escape(found) + r"(?![A-Za-z0-9_])", expected.replace("\\", "\\\\"), text)
+        data = json.loads(text)
+    return Facts(data, label=label)
